@@ -23,6 +23,7 @@ structure Accepted (cs : List ParsedClass) : Prop where
   noCycle : (topoState cs).cycle = none
   serOk : (stackSer (parentsOf cs) (ownWmt cs) (topo cs)).2 = false
   methodsOk : (stackMethods (parentsOf cs) (ownItems cs (·.ownMethods)) (topo cs)).2 = false
+  constructionOk : constructionErrors cs = false
   propNamesNodup : ∀ c ∈ topo cs, ((propsOf cs (topo cs) c).map (·.2)).Nodup
   initialized : ∀ c ∈ cs, uninitialized (propsOf cs (topo cs) c.name) (inlineAll cs c.name) = false
   argsMatch : ∀ c ∈ cs, c.args = (propsOf cs (topo cs) c.name).map (·.2)
@@ -56,6 +57,7 @@ theorem translateTail_ok {cs : List ParsedClass} {o : Out} (h : translateTail cs
     o = { topo := topo cs, classes := cs.map (classOut cs) }
     ∧ (stackSer (parentsOf cs) (ownWmt cs) (topo cs)).2 = false
     ∧ (stackMethods (parentsOf cs) (ownItems cs (·.ownMethods)) (topo cs)).2 = false
+    ∧ constructionErrors cs = false
     ∧ (firstNameClash (topo cs) (propsOf cs (topo cs))).isSome = false
     ∧ cs.any (fun c => uninitialized (propsOf cs (topo cs) c.name) (inlineAll cs c.name)) = false
     ∧ cs.any (fun c => c.args != (propsOf cs (topo cs) c.name).map (·.2)) = false
@@ -91,7 +93,7 @@ theorem translateTail_ok {cs : List ParsedClass} {o : Out} (h : translateTail cs
   rw [if_neg h9] at h
   injection h with h
   simp only [Bool.or_eq_true, not_or, Bool.not_eq_true] at h6
-  exact ⟨h.symm, h6.1, h6.2, by simpa using h5, by simpa using h7, by simpa using h8, by simpa using h9⟩
+  exact ⟨h.symm, h6.1, h6.2, by simpa using h4, by simpa using h5, by simpa using h7, by simpa using h8, by simpa using h9⟩
 
 theorem translate_ok {cs : List ParsedClass} {o : Out} (h : translate cs = .ok o) :
     o = { topo := topo cs, classes := cs.map (classOut cs) } ∧ Accepted cs := by
@@ -107,8 +109,8 @@ theorem translate_ok {cs : List ParsedClass} {o : Out} (h : translate cs = .ok o
   | some c => rw [hc] at h; cases h
   | none =>
     rw [hc] at h
-    obtain ⟨ho, hser, hm, hclash, hun, hargs, hinv⟩ := translateTail_ok h
-    refine ⟨ho, ⟨by simpa [ParentsExist] using h1, hc, hser, hm, ?_, ?_, ?_, ?_⟩⟩
+    obtain ⟨ho, hser, hm, hcon, hclash, hun, hargs, hinv⟩ := translateTail_ok h
+    refine ⟨ho, ⟨by simpa [ParentsExist] using h1, hc, hser, hm, hcon, ?_, ?_, ?_, ?_⟩⟩
     · intro c hc'
       simp only [firstNameClash, Option.isSome_eq_false_iff, Option.isNone_iff_eq_none,
         List.find?_eq_none, decide_eq_true_eq, Decidable.not_not] at hclash
